@@ -20,7 +20,10 @@ namespace Gtirb.Msg
 /-! ### main results -/
 
 /-- reflexive (every reference has to resolve: a dangling reference is not
-`deep_eq` to itself in the model, and cannot occur through the API) -/
+`deep_eq` to itself in the model. It CAN occur through the API -
+`Symbol(referent=free_block)` - and Python's `deep_eq`, which follows the
+object, is reflexive there too: the model's `deepEq` coincides with the code's
+exactly on IRs whose references resolve, see `C18_refl_iff` in C18Refl.lean) -/
 theorem C18_refl (v : IRV) (hs : SelfContained v) : deepEq v v = true :=
   deepEq_of_canon hs hs rfl
 
